@@ -49,3 +49,49 @@ def register(reg):
             + ([('self.make_model_image(data.shape, psf_shape=psf_shape,',
                  'self.make_model_image(data.shape, psf_shape=None,')] if tag == 'psf-shape' else []),
         ))
+    register_row(reg)
+
+
+def register_row(reg):
+    """C18 "rendered model images are exact superpositions": what one row of the table adds to the
+    image (discretize_method='center').  Inside the row's window -- the overlap of its box with
+    the image -- pixel (j, i) grows by the model evaluated at x = i, y = j plus that row's local
+    background; every pixel outside the window keeps its value.  modelval_(x, y) names the model
+    with the row's parameters set (an opaque elementwise function here)."""
+    I = 'photutils/datasets/images.py::'
+    reg.add(Contract(
+        target='photutils/utils/cutouts.py::overlap_slices', props=['C18'],
+        params={'large_array_shape': ('tuple', 'pos', 'pos'), 'small_array_shape': ('tuple', 'pos', 'pos'),
+                'position': ('tuple', 'real', 'real'), 'mode': 'str'},
+        ensures=[('inside-the-large-array',
+                  '0 <= result[0][0].start and result[0][0].start < result[0][0].stop and '
+                  'result[0][0].stop <= large_array_shape[0] and 0 <= result[0][1].start and '
+                  'result[0][1].start < result[0][1].stop and '
+                  'result[0][1].stop <= large_array_shape[1]')],
+        returns=('tuple', 'slice2', 'slice2'), assumed=True,
+        note='_overlap_slices(mode="trim") returns a non-empty window inside the image or raises '
+             'NoOverlapError (astropy.nddata.overlap_slices; which window it is: bounded driver)',
+    ))
+    win = ('j >= slc_lg[0].start and j < slc_lg[0].stop and i >= slc_lg[1].start and '
+           'i < slc_lg[1].stop')
+    box = '(0, shape[0]), (0, shape[1])'
+    reg.add(Contract(
+        target=I + 'make_model_image', props=['C18'], tag='one-row', block=('slc_lg', 'image'),
+        params={'shape': ('tuple', 'pos', 'pos'), 'mod_shape': ('tuple', 'pos', 'pos'),
+                'y0': 'real', 'x0': 'real', 'discretize_method': ('const', 'center'),
+                'model': ('ufunc', 'modelval', 2), 'image': ('arr', 2, 'real'),
+                'local_bkg': ('seq', 'real'), 'i': 'nat'},
+        requires=['image.shape == shape', 'i < len(local_bkg)'],
+        ensures=[
+            ('inside-the-window-model-at-the-pixel-plus-the-rows-background',
+             f'forall(lambda j, i_: implies({win.replace(" i ", " i_ ").replace("i >=", "i_ >=").replace("and i <", "and i_ <")}, '
+             'image[j, i_] == old_image[j, i_] + modelval_(i_, j) + local_bkg[i]), ' + box + ')'),
+            ('outside-the-window-untouched',
+             f'forall(lambda j, i_: implies(not ({win.replace("i >=", "i_ >=").replace("and i <", "and i_ <")}), '
+             'image[j, i_] == old_image[j, i_]), ' + box + ')'),
+        ],
+        mutants=[('subimg = model(xx, yy)', 'subimg = model(yy, xx)'),
+                 ('image[slc_lg] += subimg + local_bkg[i]', 'image[slc_lg] = subimg + local_bkg[i]'),
+                 ('image[slc_lg] += subimg + local_bkg[i]', 'image[slc_lg] += subimg'),
+                 ('yy, xx = np.mgrid[slc_lg]', 'xx, yy = np.mgrid[slc_lg]')],
+    ))
